@@ -237,6 +237,8 @@ def _filtered(ctx, values, dt, cut_arg, kwargs, no_cut=False, relaxed=False):
         except ValueError:
             ctx.cls("guarded-raises")
             return None
+        except Exception as e:  # noqa
+            ctx.fail("butter_pass raised %s: %s" % (type(e).__name__, str(e)[:200]))
     else:
         ctx.lib(s.butter_pass, *args, **kwargs)
     out = np.asarray(s.values)
